@@ -113,7 +113,7 @@ def main(argv=None):
             print(f"{prop}: exit={r['exit']} {r['seconds']}s "
                   f"{[s['signature'] for s in r['signatures']]} {r['tail'][-200:]}",
                   flush=True)
-        with open(os.path.join(d, 'evaluation.json'), 'w') as f:
+        with open(os.path.join(d, 'evaluation_all.json' if a.all else 'evaluation.json'), 'w') as f:
             json.dump(res, f, indent=1, default=str)
         return 0
     finally:
